@@ -13,6 +13,7 @@
 
 #include "alloccap.h"
 #include "blfasm.h"
+#include "blfdefaults.h"
 #include "explore.h"
 #include "memfile.h"
 
@@ -171,15 +172,8 @@ static std::string write_body() {
     blfasm::Bytes got = blfasm::load(PATH);
     blfasm::Bytes stream;
     for (size_t i = 0; i < k; i++) blfasm::put(stream, ENC[i].data(), ENC[i].size());
-    blfasm::Bytes want = blfasm::file_bytes(stream, (size_t)CONT, (int)LEVEL, RP != 0, (uint32_t)k);
-    if (got != want && stream.size() % (size_t)CONT == 0) /* either form is well formed, see blfasm.h */
-        want = blfasm::file_bytes(stream, (size_t)CONT, (int)LEVEL, RP != 0, (uint32_t)k, blfasm::Header(), nullptr, true, true);
-    if (got != want) {
-        size_t d = 0;
-        while (d < got.size() && d < want.size() && got[d] == want[d]) d++;
-        throw vx::Violation("wrong-file", "written file differs from the reference assembly at offset " + std::to_string(d) +
-                            " (sizes " + std::to_string(got.size()) + " vs " + std::to_string(want.size()) + ")");
-    }
+    std::string bad = blfasm::verify(got, stream, (size_t)CONT, (int)LEVEL, RP != 0, (uint32_t)k, library_header_defaults());
+    if (!bad.empty()) throw vx::Violation("wrong-file", "written file: " + bad);
     return "file:" + std::to_string(got.size()) + ":" + hex64(fnv64(got.data(), got.size()));
 }
 
